@@ -21,6 +21,11 @@ structure Cfg where
   maxData : Nat
   /-- `max_ports` of the receiver -/
   maxPorts : Nat
+  /-- `override_graceful_close` of the sender (`CreditUser::override_graceful_close`, credit.rs):
+  credits are still handed out after the receiver closed *gracefully*.  Off by default; `chmux::forward`
+  switches it on for the life time of its loop (forward.rs), so it is a constant of the link the
+  forwarder sends on (`RemocModel/Link/Forward.lean`). -/
+  ovr : Bool := false
 deriving Repr, DecidableEq
 
 /-- Frames travelling from the sending to the receiving endpoint on this port. -/
@@ -302,8 +307,12 @@ def recvChunkStep (c : Cfg) (r : Receiver) : Option (Receiver × List Back × Op
         let rb := returnFor c.limit r0 f
         some ({ rb.1 with receiving := rec'.getD recving, finished := f.isFinish }, rb.2, some f, out)
 
-/-- May the sender obtain credits?  (`override_graceful_close` is not modelled: default false.) -/
+/-- May the sender obtain credits without the graceful-close override? -/
 def Sender.open (s : Sender) : Bool := s.closed.isNone
+
+/-- `CreditUser::request`/`try_request` (credit.rs): the request is refused iff the provider is closed and
+not (`override_graceful_close` and closed gracefully). -/
+def Sender.mayRequest (c : Cfg) (s : Sender) : Bool := s.open || (c.ovr && s.closed == some true)
 
 def step (c : Cfg) (st : State) : Label → Option State
   | .startSend d =>
@@ -343,7 +352,7 @@ def step (c : Cfg) (st : State) : Label → Option State
     | none => none
     | some x =>
       let (want, minReq) := x.want
-      if st.s.held = 0 ∧ st.s.open ∧ st.s.pool ≥ minReq then
+      if st.s.held = 0 ∧ st.s.mayRequest c ∧ st.s.pool ≥ minReq then
         let taken := min st.s.pool want
         some { st with s := { st.s with pool := st.s.pool - taken, held := taken } }
       else none
@@ -351,7 +360,7 @@ def step (c : Cfg) (st : State) : Label → Option State
     match st.s.cur with
     | none => none
     | some _ =>
-      if st.s.held = 0 ∧ ¬ st.s.open then
+      if st.s.held = 0 ∧ ¬ st.s.mayRequest c then
         some { st with s := { st.s with cur := none, inMsg := false, acc := [] } }
       else none
   | .emit =>
